@@ -390,3 +390,44 @@ def reduction(cx, b, d):
                     src = rg[2][1] if (rg[0] == 'range' and isinstance(rg[2], tuple) and rg[2][0] == 'len') else rg
                 return {'op': op, 'init': inits[0], 'cmp': None, 'src': src, 'elem': e, 'conds': conds, 'form': 'loop'}
     return None
+
+
+def argmax_folds(cx, body):
+    """arg-max written as a fold with a (best value, Option<item>) accumulator:
+           it.fold((z, None), |(best, arg), x| if v(x) > best { (v(x), Some(x)) } else { (best, arg) })
+    -> [{'src', 'init', 'value', 'item', 'site'}] with the closure's captures replaced by their values and its item parameter by the
+    canonical running element `(itervar SRC)` - the same terms a rule sees in the accumulator-loop spelling."""
+    from . import inline as IN
+    from .pattern import match as _m
+    out = []
+    for s in body.calls('*fold'):
+        d = cx.call(s)
+        if d[0] != 'call' or len(d) != 5 or not isinstance(d[4], tuple) or d[4][0] != 'closure':
+            continue
+        ei = _m('(agg tuple (0 $z) (1 (agg *Option::None)))', d[3])
+        cl = cx.closure_body(d[4][1])
+        if ei is None or cl is None or cl.argc != 3:
+            continue
+        take, keep = None, False
+        rets = cx.rets(cl)
+        for s2, dv in rets:
+            e = _m('(agg tuple (0 $v) (1 (agg *Option::Some (0 $item))))', dv)
+            if e is not None:
+                if cx.guarded(cl, s2.bb, '(lt (field 0 (param 2)) $v)', True, {'v': e['v']}) is not None:
+                    take = e
+            elif _m('(agg tuple (0 (field 0 (param 2))) (1 (field 1 (param 2))))', dv) is not None or _m('(param 2)', dv) is not None:
+                keep = True
+        if take is None or not keep or len(rets) != 2:
+            continue
+        names = IN.capture_names(cl)
+        caps = {names[i]: v for i, v in enumerate(d[4][2:]) if i in names}
+        src = d[2]
+
+        def sub(n):
+            if n[0] == 'field' and len(n) == 3 and isinstance(n[1], str) and n[1].startswith('cap:') and n[2][0] == 'param' and n[2][1] == 1 and n[1] in caps:
+                return caps[n[1]]
+            if n[0] == 'param' and n[1] == 3:
+                return ('itervar', src)
+            return None
+        out.append({'src': src, 'init': ei['z'], 'value': simplify(IN.subst(take['v'], sub)), 'item': simplify(IN.subst(take['item'], sub)), 'site': s})
+    return out
